@@ -75,6 +75,21 @@ let check_tokens (cfg : econfig) (ops : eop list) (tr : tok list) : unit =
       | OStep (_, _, pl) | OTrigger (_, _, _, pl) | OCallback (_, _, pl) | OCtl (_, _, _, pl) -> List.exists (fun (_, f) -> f = FStale) pl
       | _ -> false) in
     let on_tok t p = on p && viol t p && not (stale_op && (match t with TUser _ -> p = "C04" || p = "C16" | _ -> false)) in
+    (* C12 "a timer is created only when ... the timer function returns a non-zero time" (theorem C12_create_only_if: every Create
+       sits directly on top of the timer function's invocation on that run that returned that non-zero expiry) *)
+    (if on "C12" then begin
+      let ok_before tk run st ex = (match tk with
+        | Some (TUser (UFTimer (s', _), view, _, _, UTime (Some ex'))) -> view.r_run = run && s' = st && ex' = ex
+        | _ -> false) in
+      let rec go prev = function
+        | [] -> ()
+        | (TTCreate (run, st, ex, _) as tk) :: tl ->
+          if not (ok_before prev run st ex) then
+            bad "C12" "a timer was created for run %d at status %d although the timer function had not just returned that non-zero expiry" (ni run) (zi st);
+          go (Some tk) tl
+        | tk :: tl -> go (Some tk) tl in
+      go None seg
+    end);
     List.iter (fun t ->
       (match t with
       | TStore (prev, r, a) ->
@@ -434,7 +449,7 @@ let check_tokens (cfg : econfig) (ops : eop list) (tr : tok list) : unit =
      end);
     (* C07 / C11: an adapter call that failed with an error (not a cancellation) sends the process through the error exit:
        it waits the configured back-off on the workflow clock before it asks for its role again *)
-    (if (on "C07" || on "C11") && zi cfg.ec_backoff > 0 then
+    (if (on "C07" || on "C11") then
        match unit_of_op, op with
        | Some _, OStep (_, _, pl) when not (List.exists (fun (_, f) -> f = FCrash || f = FLease) pl) ->
          let rec after_fail = function
